@@ -19,3 +19,15 @@ Theorem C18_no_logger_no_lines :
   forall c idle k s, cfg_iolog c = false -> io_lines (snd (do_call c idle k s)) = io_lines s.
 Proof. exact no_iolog_no_lines. Qed.
 Print Assumptions C18_no_logger_no_lines.
+
+(* with an I/O logger every typed call emits exactly one line; its tx part is what was logged
+   before the call (nothing, in a history of typed calls) followed by the frames successfully
+   written during the call, in order; the log buffers are empty afterwards *)
+Theorem C18_one_line : forall c, cfg_iolog c = true -> forall idle k s,
+  match k with CPing | CDeviceId | CGetUint _ | CGetInt _ | CGetString _ => True | _ => False end ->
+  exists ws rx,
+    written (pt (snd (do_call c idle k s))) = written (pt s) ++ ws /\
+    io_lines (snd (do_call c idle k s)) = io_lines s ++ [(io_tx s ++ concat ws, rx)] /\
+    io_tx (snd (do_call c idle k s)) = [] /\ io_rx (snd (do_call c idle k s)) = [].
+Proof. exact typed_call_one_line. Qed.
+Print Assumptions C18_one_line.
